@@ -451,6 +451,16 @@ func expectC10(before []byte, a *Assets, op *Op) (c10expect, bool) {
 	return ex, true
 }
 
+// firstDiffWindow: the part of a around the first place where it differs from b
+func firstDiffWindow(a, b string) string {
+	i := 0
+	for i < len(a) && i < len(b) && a[i] == b[i] {
+		i++
+	}
+	lo, hi := max(0, i-60), min(len(a), i+120)
+	return a[lo:hi]
+}
+
 func oracleC10(h *History, ci int, c *CallObs, res *hx.Result) {
 	{
 		if ci == 0 {
@@ -476,6 +486,11 @@ func oracleC10(h *History, ci int, c *CallObs, res *hx.Result) {
 			// rejected: the session must be exactly as it was, no events
 			if !bytes.Equal(c.Before, c.After) {
 				fail(fmt.Sprintf("rejected-%d-session-changed", ex.reject), "session JSON differs after a rejected resume")
+			}
+			// "left exactly as it was": also what the session shows through its API (the expression context of the
+			// current run, the parent run) - a host that retries with another resume must find the same session
+			if after := renderContext(c.Session); c.CtxBefore != "" && after != c.CtxBefore {
+				fail(fmt.Sprintf("rejected-%d-context-changed", ex.reject), fmt.Sprintf("the session's JSON is unchanged but what it shows through CurrentContext()/ParentRun() differs after a rejected resume: before %.300s / after %.300s", firstDiffWindow(c.CtxBefore, after), firstDiffWindow(after, c.CtxBefore)))
 			}
 			if c.Sprint != nil && (len(c.Sprint.Events()) > 0 || len(c.Sprint.Segments()) > 0 || len(c.Sprint.Modifiers()) > 0) {
 				fail(fmt.Sprintf("rejected-%d-produced-events", ex.reject), "a rejected resume produced events")
